@@ -511,8 +511,56 @@ def multi_case(ctx, rng, mod):
                 if any(b is top for b in holder.__bases__):
                     holder.__bases__ = tuple(twin if b is top else b for b in holder.__bases__)
             ctx.count('multi_reverified_after_twin_swap')
-            check_verify(ctx, fn, I, cand, tentative, expected + [(BrokenImplementation, 'zz_twin')],
+            expected = expected + [(BrokenImplementation, 'zz_twin')]
+            check_verify(ctx, fn, I, cand, tentative, expected,
                          {'form': 'multi-after-equal-twin-swap', 'class': as_class, 'declared': declared, 'tentative': tentative})
+    if rng.random() < 0.3:
+        # the verified interface itself gets one more base while one of its dependents refuses the news (raises from
+        # changed()): the assignment fails, but the interface has its new bases and verification goes by them
+        class Grumpy:
+            armed = True
+
+            def changed(self, originally_changed):
+                if self.armed:
+                    self.armed = False
+                    raise RuntimeError('dependent refuses')
+        g = Grumpy()
+        I.subscribe(g)
+        extra2 = InterfaceClass('IVY', (Interface,), {'zz_late': mkfunc('zz_late', req=1)[0]}, __module__=mod)
+        old_bases = I.__bases__
+        try:
+            I.__bases__ = old_bases + (extra2,)
+        except RuntimeError:
+            ctx.count('multi_rebase_interrupted_by_a_raising_dependent')
+        I.unsubscribe(g)
+        if extra2 in I.__bases__:
+            cur = [(c, n) for c, n in expected]
+            check_verify(ctx, fn, I, cand, tentative, cur + [(BrokenImplementation, 'zz_late')],
+                         {'form': 'multi-after-interrupted-rebase', 'class': as_class, 'declared': declared, 'tentative': tentative})
+    if base_attrs and rng.random() < 0.3 and all(b is top or top in b.__iro__ for b in I.__bases__ if b is not Interface) \
+            and not any(getattr(b, '__name__', '') == 'IVY' for b in I.__bases__):
+        # the defining ancestor is defined anew *in place* (its __init__ runs again with one more method, as an
+        # application reloading its configuration does): what it asks for now is what verification goes by
+        try:
+            cur_top = [x for x in I.__iro__ if x.__name__ == 'IVB'][0]
+            new_attrs = dict(base_attrs, zz_again=mkfunc('zz_again', req=1)[0])
+            relaxed = 'bm' not in attrs and rng.random() < 0.7
+            if relaxed:
+                new_attrs['bm'] = Attribute('any attribute will do now')     # no signature to meet any more
+            cur_top.__init__('IVB', (Interface,), new_attrs, __module__=mod)
+            ok = True
+        except Exception:
+            ok = False
+        if ok:
+            ctx.count('multi_reverified_after_reinitialised_ancestor')
+            exp2 = [e for e in expected if e[1] != 'zz_twin' and not (relaxed and e == (BrokenMethodImplementation, 'bm'))]
+            if relaxed and as_class:
+                exp2 = [e for e in exp2 if e != (BrokenImplementation, 'bm')]     # classes are exempt for plain attributes
+            if len(exp2) != len([e for e in expected if e[1] != 'zz_twin']):
+                ctx.count('multi_verdict_changed_by_in_place_redefinition')
+            check_verify(ctx, fn, I, cand, tentative, exp2 + [(BrokenImplementation, 'zz_again')],
+                         {'form': 'multi-after-ancestor-defined-anew-in-place', 'class': as_class, 'declared': declared,
+                          'tentative': tentative})
     ctx.shape(('c17multi', as_class, declared, tentative, tuple(sorted(c.__name__ for c, _ in expected))), nontrivial=len(expected) >= 2)
 
 
